@@ -28,7 +28,9 @@ import (
 
 func genOverlap(rng *vh.Rng, k int) prog {
 	name := fmt.Sprintf("o%d", k)
-	switch rng.Intn(5) {
+	switch rng.Intn(8) {
+	case 5, 6, 7:
+		return genGoOperand(rng, name)
 	case 0:
 		return genReentrant(rng, name)
 	case 1:
@@ -156,8 +158,8 @@ func genReentrant(rng *vh.Rng, name string) prog {
 	extra := rng.Intn(3) // 0: single case, 1: + never-ready receive from a nil channel, 2: + default never taken
 	a := 3 + rng.Intn(40)
 	var sb strings.Builder
-	fmt.Fprintf(&sb, "func %s_v(d int, cs []chan int) int { if d > 0 { return %d*d + %s_w(d-1, cs) }; return %d }\n", name, a, name, a+1)
-	fmt.Fprintf(&sb, "func %s_w(d int, cs []chan int) int {\n\tr := 0\n\tselect {\n\tcase cs[d] <- %s_v(d, cs):\n\t\tr = d + 1\n", name, name)
+	// (directly recursive: mutually recursive functions in one evaluation are known finding C16-3)
+	fmt.Fprintf(&sb, "func %s_w(d int, cs []chan int) int {\n\tif d < 0 {\n\t\treturn %d\n\t}\n\tr := 0\n\tselect {\n\tcase cs[d] <- %d*d + %s_w(d-1, cs):\n\t\tr = d + 1\n", name, a+1, a, name)
 	switch extra {
 	case 1:
 		sb.WriteString("\tcase x := <-cs[len(cs)-1]:\n\t\tr = 50 + x\n")
@@ -223,4 +225,104 @@ func genParallelSelect(rng *vh.Rng, name string) prog {
 	return s
 }`, name, G, G, N, a, name, name, third, name)
 	return prog{Name: name, Kind: fmt.Sprintf("same-select-parallel:%dgoroutines", G), Src: sb.String()}
+}
+
+// go-operand-snapshot: the go statement evaluates the function VALUE and the arguments in the calling goroutine (Go spec);
+// the function operand is a non-constant expression (slice / map element, call result, method value of a variable or
+// through a pointer / interface, function variable, struct field) and the caller changes what the expression reads
+// directly after the go statement.  Every started goroutine reports on a channel of its own: the result is schedule
+// independent in Go.
+func genGoOperand(rng *vh.Rng, name string) prog {
+	n := 2 + rng.Intn(4)
+	var sb strings.Builder
+	fmt.Fprintf(&sb, "type %s_T struct{ id int }\n", name)
+	fmt.Fprintf(&sb, "func (t %s_T) run(o chan int, x int) { o <- 5000 + 10*t.id + x }\n", name)
+	fmt.Fprintf(&sb, "func (t *%s_T) prun(o chan int, x int) { o <- 6000 + 10*t.id + x }\n", name)
+	fmt.Fprintf(&sb, "type %s_I interface{ run(o chan int, x int) }\n", name)
+	fmt.Fprintf(&sb, "type %s_H struct{ fn func(chan int, int) }\n", name)
+	for i := 0; i < 3; i++ {
+		fmt.Fprintf(&sb, "func %s_f%d(o chan int, x int) { o <- %d + x }\n", name, i, 1000*(i+1))
+	}
+	fmt.Fprintf(&sb, "func %s_pick(fs []func(chan int, int), p *int) func(chan int, int) { return fs[*p] }\n", name)
+	fmt.Fprintf(&sb, "func %s() int {\n\ts := 0\n", name)
+	fmt.Fprintf(&sb, "\tfs := []func(chan int, int){%s_f0, %s_f1, %s_f2}\n", name, name, name)
+	fmt.Fprintf(&sb, "\tm := map[string]func(chan int, int){\"a\": %s_f0, \"b\": %s_f1, \"c\": %s_f2}\n", name, name, name)
+	sb.WriteString("\tmk := func(d int) func(chan int, int) { return func(o chan int, x int) { o <- 7000 + 10*d + x } }\n")
+	sb.WriteString("\t_, _, _ = fs, m, mk\n")
+	var forms []string
+	for k := 0; k < n; k++ {
+		a := rng.Intn(3)
+		b := (a + 1 + rng.Intn(2)) % 3
+		x := 1 + rng.Intn(8)
+		o := fmt.Sprintf("o%d", k)
+		fmt.Fprintf(&sb, "\t%s := make(chan int, 1)\n\tx%d := %d\n", o, k, x)
+		arg := fmt.Sprintf("(%s, x%d)", o, k)
+		form := rng.Intn(12)
+		var body, fname string
+		switch form {
+		case 0:
+			fname = "slice-element:index-changed"
+			body = fmt.Sprintf("i%d := %d\n\tgo fs[i%d]%s\n\ti%d = %d", k, a, k, arg, k, b)
+		case 1:
+			fname = "slice-element:element-overwritten"
+			body = fmt.Sprintf("i%d := %d\n\tgo fs[i%d]%s\n\tfs[i%d] = %s_f%d", k, a, k, arg, k, name, b)
+		case 2:
+			fname = "map-element:key-changed"
+			body = fmt.Sprintf("k%d := %q\n\tgo m[k%d]%s\n\tk%d = %q", k, string(rune('a'+a)), k, arg, k, string(rune('a'+b)))
+		case 3:
+			fname = "map-element:element-overwritten"
+			body = fmt.Sprintf("go m[%q]%s\n\tm[%q] = %s_f%d", string(rune('a'+a)), arg, string(rune('a'+a)), name, b)
+		case 4:
+			fname = "call-result:pointer-argument-changed"
+			body = fmt.Sprintf("i%d := %d\n\tgo %s_pick(fs, &i%d)%s\n\ti%d = %d", k, a, name, k, arg, k, b)
+		case 5:
+			fname = "method-value:variable-reassigned"
+			body = fmt.Sprintf("v%d := %s_T{%d}\n\tgo v%d.run%s\n\tv%d = %s_T{%d}", k, name, a, k, arg, k, name, b)
+		case 6:
+			fname = "method-value:field-changed"
+			body = fmt.Sprintf("v%d := %s_T{%d}\n\tgo v%d.run%s\n\tv%d.id = %d", k, name, a, k, arg, k, b)
+		case 7:
+			fname = "method-value-through-pointer:pointer-reassigned"
+			meth := "run"
+			if rng.Chance(1, 2) && !avoidPtrRecv {
+				meth = "prun"
+			}
+			body = fmt.Sprintf("p%d := &%s_T{%d}\n\tgo p%d.%s%s\n\tp%d = &%s_T{%d}", k, name, a, k, meth, arg, k, name, b)
+		case 8:
+			fname = "function-variable:reassigned"
+			body = fmt.Sprintf("f%d := %s_f%d\n\tgo f%d%s\n\tf%d = %s_f%d", k, name, a, k, arg, k, name, b)
+		case 9:
+			fname = "struct-field:reassigned"
+			body = fmt.Sprintf("h%d := %s_H{fn: %s_f%d}\n\tgo h%d.fn%s\n\th%d.fn = %s_f%d", k, name, name, a, k, arg, k, name, b)
+		case 10:
+			fname = "interface-method-value:reassigned"
+			body = fmt.Sprintf("var t%d %s_I = %s_T{%d}\n\tgo t%d.run%s\n\tt%d = %s_T{%d}", k, name, name, a, k, arg, k, name, b)
+		default:
+			fname = "closure-call-result:argument-changed"
+			body = fmt.Sprintf("d%d := %d\n\tgo mk(d%d)%s\n\td%d = %d", k, a, k, arg, k, b)
+		}
+		forms = append(forms, fname)
+		fmt.Fprintf(&sb, "\t%s\n\tx%d = %d\n", body, k, x+20)
+	}
+	for k := 0; k < n; k++ {
+		fmt.Fprintf(&sb, "\ts = (s*31 + <-o%d) %% 1000003\n", k)
+	}
+	sb.WriteString("\treturn s\n}")
+	return prog{Name: name, Kind: "go-operand-snapshot:" + strings.Join(forms, ","), Src: sb.String()}
+}
+
+// Finding C10-2 (fix in /verif/fixes/C10-2.diff): a method value with a POINTER receiver taken from a pointer variable
+// or field (`g := p.get`, `go p.get()`, `defer p.get()`) stays bound to the variable instead of to the pointer it held
+// when the method value was created: after `p = &T{2}` the call uses the new pointer.  While the exact recorded input
+// still fails, the generator uses value-receiver methods only for the form method-value-through-pointer.
+const keyPtrRecv = "C10-2-method-value-pointer-receiver-bound-late"
+
+var avoidPtrRecv bool
+
+var ptrRecvProg = []string{
+	`type C10pT struct{ id int }`,
+	`func (t *C10pT) get() int { return t.id }`,
+	`func (t *C10pT) put(o chan int) { o <- t.id }`,
+	`func c10probe1() int { p := &C10pT{0}; g := p.get; p = &C10pT{2}; return g() }`,
+	`func c10probe2() int { p := &C10pT{0}; o := make(chan int, 1); go p.put(o); p = &C10pT{2}; return <-o }`,
 }
